@@ -148,3 +148,12 @@ Qed.
 (** The whole C01 monitor accepts every pass of the model. *)
 Theorem monitor_sound (c : pcase) : C01Corr.monitor (set_obs c (model_run c)) = true.
 Proof. unfold C01Corr.monitor. now rewrite m1_sound, m2_sound, m3_sound, m4_sound. Qed.
+
+(** m3r (a refusal the pass reaches is reported as a collision error) accepts every pass of the model. *)
+Theorem m3r_sound (c : pcase) : m3r (set_obs c (model_run c)) = true.
+Proof.
+  unfold m3r. destruct (model_run c) as [[w e] r] eqn:E.
+  change (model_run (set_obs c (w, e, r))) with (model_run c). rewrite E.
+  cbn [set_obs pc_res pc_between pc_teardown snd].
+  destruct (is_nil (pc_between c)), (pc_teardown c), (ores_collision r); reflexivity.
+Qed.
